@@ -4,6 +4,7 @@ package main
 
 import (
 	"fmt"
+	"go/token"
 	"go/types"
 	"strings"
 
@@ -37,7 +38,7 @@ func consumerOfGo(P *Prog, g *ssa.Go) (*ssa.Function, []ssa.Value) {
 }
 
 func checkC10(c *Ctx) {
-	c.Explanation = "Decides the structure that makes rtcmfilter's output exactly the valid frames of its input: (R1/R2) the writer attached to standard output and to the record file is the filtering consumer: it writes every received message whose type is not the non-RTCM sentinel, once, synchronously, and what it writes is the message's RawData unmodified; it skips nothing else and stops only on a closed channel or a failed write; (R3) wiring: exactly one consumer goroutine is given the program's output writer and it is the filtering consumer; the record consumer is the same function on the daily record writer, started iff RecordMessages; the readable log consumer writes one entry per message and is started iff DisplayMessages; every consumer's channel is in the fan-out list handed to the pipeline; (R4) composition with the framing properties: typed messages are exactly CRC-valid complete frames (C01 rules), every valid frame is recognised with exactly its own bytes (C03 rules), the reader stage forwards every byte it reads exactly once for every chunking of the input (C09-R8 rule), the pipeline delivers all of them in order to every consumer (C09 fan-out rules); (R5) every consumer goroutine is joined — its channel closed and its completion awaited — before the entry point returns, so nothing is missing at exit (C11 join rule applied to all consumers). R4 also contains the no-panic obligations of the stream handler (C07 engine)."
+	c.Explanation = "Decides the structure that makes rtcmfilter's output exactly the valid frames of its input: (R6) no function of the module that the entry point reaches prints to standard output beside the output writer (fmt.Print*, os.Stdout); (R1/R2) the writer attached to standard output and to the record file is the filtering consumer: it writes every received message whose type is not the non-RTCM sentinel, once, synchronously, and what it writes is the message's RawData unmodified; it skips nothing else and stops only on a closed channel or a failed write; (R3) wiring: exactly one consumer goroutine is given the program's output writer and it is the filtering consumer; the record consumer is the same function on the daily record writer, started iff RecordMessages; the readable log consumer writes one entry per message and is started iff DisplayMessages; every consumer's channel is in the fan-out list handed to the pipeline; (R4) composition with the framing properties: typed messages are exactly CRC-valid complete frames (C01 rules), every valid frame is recognised with exactly its own bytes (C03 rules), the reader stage forwards every byte it reads exactly once for every chunking of the input (C09-R8 rule), the pipeline delivers all of them in order to every consumer (C09 fan-out rules); (R5) every consumer goroutine is joined — its channel closed and its completion awaited — before the entry point returns, so nothing is missing at exit (C11 join rule applied to all consumers). R4 also contains the no-panic obligations of the stream handler (C07 engine)."
 	c.NotDecided = "dailylogger's file handling; what happens after a short or failed write (the writer stops by design); the CRC arithmetic (dependency pin, C01)."
 	P := c.P
 	pkg := "apps/rtcmfilter"
@@ -180,8 +181,51 @@ func checkC10(c *Ctx) {
 	// ---- R5 joins
 	n := ruleJoinAll(c, "C10-R5", F, nil, pkg)
 	c.Check(n == 3, "C10-R5", "joins:all-consumers", F.Pos(), "all three consumer goroutines are covered by the join rule", fmt.Sprintf("%d writer goroutines found, expected 3", n))
+	// ---- R6 nothing but the consumer writes to standard output
+	ruleNoStrayStdout(c, "C10-R6", []*ssa.Function{F})
 	c.MinInstances("C10-R1", 9)
 	c.MinInstances("C10-R3", 10)
 	c.MinInstances("C10-R4", 60)
 	c.MinInstances("C10-R5", 4)
+}
+
+// ruleNoStrayStdout: the entry point is handed its output as an io.Writer, which main binds to os.Stdout.
+// Anything else the pipeline prints to standard output (fmt.Print*, a direct use of os.Stdout) lands in the
+// middle of the filtered stream.
+func ruleNoStrayStdout(c *Ctx, rule string, roots []*ssa.Function) {
+	P := c.P
+	reach := P.ReachableModule(roots)
+	n, bad := 0, 0
+	for fn := range reach {
+		if !P.InModule(fn) {
+			continue
+		}
+		n++
+		eachInstr(fn, func(ins ssa.Instruction) {
+			for _, op := range ins.Operands(nil) {
+				if op == nil || *op == nil {
+					continue
+				}
+				switch x := (*op).(type) {
+				case *ssa.Function:
+					for _, nm := range []string{"Print", "Printf", "Println"} {
+						if calleeIs(x, "fmt", nm) {
+							bad++
+							c.Fail(rule, "stdout-only-through-writer("+P.FnKey(fn)+")", ins.Pos(), "refuted", "fmt."+nm+" prints to standard output, which is the filtered stream: the text lands between (or after) the frames")
+						}
+					}
+				case *ssa.Global:
+					if x.Pkg != nil && x.Pkg.Pkg.Path() == "os" && x.Name() == "Stdout" {
+						bad++
+						c.Fail(rule, "stdout-only-through-writer("+P.FnKey(fn)+")", ins.Pos(), "refuted", "os.Stdout is used directly inside the pipeline: only the consumer attached to the output writer may write to the filtered stream")
+					}
+				}
+			}
+		})
+	}
+	if n == 0 {
+		c.Fail(rule, "stdout-only-through-writer", token.NoPos, "unresolved", "no functions reachable from the entry point")
+	} else if bad == 0 {
+		c.OK(rule, "stdout-only-through-writer", roots[0].Pos(), fmt.Sprintf("no fmt.Print* call and no use of os.Stdout in the %d module functions reachable from the entry point", n))
+	}
 }
